@@ -175,7 +175,7 @@ def main():
                 r = run(["/venv/bin/python", "-m", "pytest", "-q", "-x", "-p", "no:cacheprovider", "tests"], cwd=dst, env=dict(os.environ, PYTHONPATH=dst, PYTHONDONTWRITEBYTECODE="1"))
                 tests = "tests-pass" if r.returncode == 0 else "tests-FAIL"
             t0 = time.time()
-            r = run([os.path.join(VERIF, "check"), prop, "--tier", "quick"], env=dict(os.environ, VERIF_REPO=dst, VERIF_EVIDENCE_DIR=os.path.join(d, "ev")))
+            r = run([os.path.join(VERIF, "check"), prop, "--tier", "quick"], env=dict(os.environ, VERIF_REPO=dst, VERIF_EVIDENCE_DIR=os.path.join(d, "ev"), VERIF_NO_SHRINK="1"))
             dt = time.time() - t0
             kind = ""
             for line in r.stdout.splitlines():
